@@ -1297,8 +1297,10 @@ impl EcmaRegexValidator {
           if !cp.is_ascii_digit() {
             break;
           }
-          self.last_int_value =
-            10 * self.last_int_value + cp.to_digit(10).unwrap() as i64;
+          self.last_int_value = self
+            .last_int_value
+            .saturating_mul(10)
+            .saturating_add(cp.to_digit(10).unwrap() as i64);
           self.advance();
         }
         return true;
@@ -1448,12 +1450,11 @@ impl EcmaRegexValidator {
       if !cp.is_ascii_digit() {
         break;
       }
-      self.last_int_value = 10 * self.last_int_value
-        + self
-          .code_point_with_offset(0)
-          .unwrap()
-          .to_digit(10)
-          .unwrap() as i64;
+      // saturate: `a{99999999999999999999}` is a valid quantifier
+      self.last_int_value = self
+        .last_int_value
+        .saturating_mul(10)
+        .saturating_add(cp.to_digit(10).unwrap() as i64);
       self.advance();
     }
 
@@ -1477,8 +1478,10 @@ impl EcmaRegexValidator {
       if !cp.is_ascii_hexdigit() {
         break;
       }
-      self.last_int_value =
-        16 * self.last_int_value + cp.to_digit(16).unwrap() as i64;
+      self.last_int_value = self
+        .last_int_value
+        .saturating_mul(16)
+        .saturating_add(cp.to_digit(16).unwrap() as i64);
       self.advance();
     }
     self.index() != start
